@@ -3,6 +3,7 @@
 use scnr::ScannerBuilder;
 use scnr_verif_harness::astser::{self, RefCache, RefTables};
 use scnr_verif_harness::cfggen::{self, ModeSpec, PatSpec, ProgCfg};
+use scnr_verif_harness::buildgen;
 use scnr_verif_harness::classgen;
 use scnr_verif_harness::world::{self, CompIds, RealWorld, WOp};
 use scnr_verif_harness::proto::{self, TableCache};
@@ -1184,6 +1185,61 @@ expect oracle", stuck, n_threads);
     done == n_threads
 }
 
+/// C15: Ok/Err kind of the real build against the classification model.
+fn case_c15(seed: u64, idx: usize, out: &mut String, st: &mut Stats) {
+    let mut r = Rng::derive(seed, idx as u64);
+    let pc = ProgCfg { max_modes: 2, max_patterns: 3, lookahead: 40, nullable: true, transitions: false, big_tids: false };
+    let mut spec = cfggen::gen_program(&mut r, &pc);
+    // plant at most one special string: in a pattern or in a lookahead of a random mode
+    let kind = r.below(10);
+    let special = match kind {
+        0..=4 => Some(buildgen::planted(&mut r)),
+        5..=7 => Some(buildgen::meta_string(&mut r)),
+        _ => None,
+    };
+    if let Some(text) = &special {
+        let m = r.below(spec.len());
+        let p = r.below(spec[m].patterns.len());
+        if r.chance(35) {
+            spec[m].patterns[p].lookahead = Some((r.chance(50), text.clone()));
+        } else {
+            spec[m].patterns[p].pattern = text.clone();
+        }
+    }
+    st.cases += 1;
+    let modes = cfggen::to_modes(&spec);
+    let built = catch_unwind(AssertUnwindSafe(|| ScannerBuilder::new().add_scanner_modes(&modes).build_uncached()));
+    let _ = writeln!(out, "case {}\nexpect case {}\n# {}", idx, idx, describe(&spec).replace('\n', "\\n"));
+    out.push_str("bnew\n");
+    for m in &spec {
+        out.push_str("bmode\n");
+        for p in &m.patterns {
+            let _ = writeln!(out, "bpat{}", buildgen::ser_pattern(&p.pattern));
+            if let Some((_, la)) = &p.lookahead {
+                let _ = writeln!(out, "bla{}", buildgen::ser_pattern(la));
+            }
+        }
+    }
+    out.push_str("bbuild\n");
+    let res = match built {
+        Err(_) => "panic".to_string(),
+        Ok(Ok(_)) => "build ok".to_string(),
+        Ok(Err(e)) => match *e.source {
+            scnr::ScnrErrorKind::RegexSyntaxError(..) => "build syntax".to_string(),
+            scnr::ScnrErrorKind::UnsupportedFeature(_) => "build unsupported".to_string(),
+            _ => "build othererror".to_string(),
+        },
+    };
+    st.count(&res.replace(' ', "_"), 1);
+    st.count(match kind { 0..=4 => "planted_unsupported", 5..=7 => "meta_string", _ => "plain" }, 1);
+    let _ = writeln!(out, "expect {}", res);
+    if st.samples.len() < 4 {
+        if let Some(t) = special {
+            st.samples.push(t);
+        }
+    }
+}
+
 fn main() {
     // silence panic messages of caught panics
     std::panic::set_hook(Box::new(|_| {}));
@@ -1235,6 +1291,7 @@ fn main() {
                         "C08" => case_c08(seed, idx, &rcache, &mut out, &mut st),
                         "C12" => case_c12(seed, idx, &cache, &mut out, &mut st),
                         "C13" => case_c13(seed, idx, &cache, &mut out, &mut st),
+                        "C15" => case_c15(seed, idx, &mut out, &mut st),
                         _ => case_iter(seed, idx, &suite, &cache, &mut out, &mut st),
                     }
                     idx += threads;
